@@ -191,7 +191,11 @@ func (s *Solver) Check(asserts []*Term, vars []*Term) (SatResult, Model) {
 	for _, a := range asserts {
 		s.send("(assert " + a.smtRef() + ")")
 	}
-	s.send("(check-sat)")
+	if s.name != "cvc5" && len(s.ufDone) == 0 && os.Getenv("GOSYM_NOTACTIC") == "" {
+		s.send("(check-sat-using qfbv)")
+	} else {
+		s.send("(check-sat)")
+	}
 	ans, err := s.readAnswer()
 	if err != nil {
 		s.dead = true
@@ -230,6 +234,14 @@ func (s *Solver) Check(asserts []*Term, vars []*Term) (SatResult, Model) {
 		}
 	}
 	s.send("(pop 1)")
+	if d := time.Since(start); d > 3*time.Second && os.Getenv("GOSYM_SLOW") != "" {
+		f, _ := os.OpenFile(os.Getenv("GOSYM_SLOW"), os.O_APPEND|os.O_CREATE|os.O_WRONLY, 0o644)
+		fmt.Fprintf(f, "SLOW %.1fs res=%v\n", d.Seconds(), res)
+		for _, a := range asserts {
+			fmt.Fprintf(f, "  %s\n", a.String())
+		}
+		f.Close()
+	}
 	return res, m
 }
 
